@@ -49,11 +49,18 @@ SimplifyIdem(e) == e.simp2 = e.simp
 DirBase(e) == HasNo(SLASH, e.base) /\ NormC(e.dir \o <<SLASH>> \o e.base) = NormC(e.p)
 StemExt(e) == /\ e.ext # <<>> => e.stem \o <<DOT>> \o e.ext = e.base
               /\ HasNo(DOT, e.base) => e.stem = e.base /\ e.ext = <<>>
+\* the two-argument forms: be / bde / se = getBaseName(p, ext) / getBaseName(p, "." \o ext) / getStem(p, ext) with ext the path's own
+\* extension: removing the extension leaves the stem; bz = getBaseName(p, "zq"): an extension the name does not have removes nothing
+EndsIn(s, t) == Len(s) >= Len(t) /\ SubSeq(s, Len(s) - Len(t) + 1, Len(s)) = t
+ExtForms(e) == /\ e.ext # <<>> => e.be = e.stem /\ e.bde = e.stem /\ e.se = e.stem
+               /\ e.ext = <<>> => e.be = e.base /\ e.se = e.stem
+               /\ ~EndsIn(e.base, <<DOT, 122, 113>>) => e.bz = e.base
 AbsOK(e) == e.abs = IsAbs(e.p)
 PathWhy(e) == IF ~SimplifyMeaning(e) THEN "simplify-meaning"
               ELSE IF ~SimplifyIdem(e) THEN "simplify-idempotent"
               ELSE IF ~DirBase(e) THEN "dir-base"
               ELSE IF ~StemExt(e) THEN "stem-ext"
+              ELSE IF ~ExtForms(e) THEN "ext-forms"
               ELSE IF ~AbsOK(e) THEN "is-absolute"
               ELSE "ok"
 
